@@ -1,11 +1,14 @@
 /-
 C01 — Pack then Unpack reproduces the message (all field kinds, nested).
-The statement for a field is `FieldRoundTrip`; it is proved here for every primitive
-field (all kinds × encoders × prefixers × padders × both packers, from Lemmas/Prim.lean)
-and lifted through composites and the message by the induction at the end of the file.
+The statement for a field is `FieldRoundTrip` (Spec/Statements.lean); it is proved for every
+primitive field (all kinds × encoders × prefixers × padders × both packers, Lemmas/Prim.lean),
+lifted through composites of any depth and mode (Lemmas/FieldRT.lean on top of C09's
+composite round trips) and through messages (Lemmas/MessageRT.lean on top of C05's bitmap
+theorems). Track1/2/3 fields are a separate family (Props/C01Tracks.lean).
 -/
 import Iso8583.Spec.Statements
 import Iso8583.Lemmas.Prim
+import Iso8583.Lemmas.FieldRT
 
 namespace Iso8583.C01
 open Iso8583
@@ -14,6 +17,34 @@ open Iso8583
 theorem prim_field_roundtrip (s : PrimSpec) (lastPos : Bool) : FieldRoundTrip (.prim s) lastPos := by
   intro v tail bs hc hv hp ht
   exact field_prim_roundtrip s lastPos v tail bs hc hv hp ht
+
+
+/-- **C01 for every field** (arbitrary nesting depth, all three composite modes): for a
+coherent spec, an in-domain value on which Pack succeeds and whose packed bytes are a Go
+slice (`≤ MaxInt` bytes), Unpack of the produced bytes — whatever bytes follow them —
+yields the value in canonical form, consumes exactly the bytes Pack produced, and packing
+the canonical value returns the identical bytes. By structural induction over the spec tree
+(`Field.rec`), with the composite step from C09's `composite_roundtrip_{tagged,positional,
+bitmapped}` and the base case `prim_field_roundtrip`. -/
+theorem field_roundtrip (f : Field) (lastPos : Bool) : FieldRT.FieldRoundTripB f lastPos :=
+  FieldRT.field_roundtrip prim_field_roundtrip f lastPos
+
+/-- **C01 for every message**: for every coherent message spec and in-domain content on
+which Pack succeeds (packed bytes a Go slice), unpacking `bs ++ tail` into a fresh message
+yields exactly the canonical content — the same set of present fields and, recursively, the
+same value for every field and subfield — having consumed `bs.length` bytes, and packing
+the unpacked content returns the identical bytes. -/
+theorem message_roundtrip (spec : MsgSpec) : FieldRT.MessageRoundTripB spec :=
+  FieldRT.message_roundtrip prim_field_roundtrip spec
+
+/-- the same, spelled out -/
+theorem pack_unpack (spec : MsgSpec) (m : Msg) (tail bs : Bytes)
+    (hc : spec.coherent = true) (hd : spec.inDomain m = true) (hp : spec.pack m = .ok bs)
+    (hlen : bs.length ≤ maxInt) :
+    spec.unpack (bs ++ tail) = .ok (spec.canon m, bs.length) ∧ spec.pack (spec.canon m) = .ok bs := by
+  obtain ⟨⟨n, h1, h2⟩, h3⟩ := message_roundtrip spec m tail bs hc hd hp hlen
+  subst h2
+  exact ⟨h1, h3⟩
 
 /-! Non-vacuity -/
 def demoPrim : PrimSpec := { kind := .string, len := 10, enc := .ascii, pref := .var .ascii 2, pad := .left 32 }
